@@ -40,6 +40,12 @@ CHECKS = {
     text="Search, not proof. Exhaustive over 121+1 seconds x 2 sub-second phases x 39 boundary days x 5 symbolic starts x 4 mup x 3 depths (quick and thorough alike); 50k (quick) to 3M (thorough) generated tuples over 1971-2100 with half of the mass near day/month/year boundaries; 0.8k-40k rendered manifests.",
     note="Options are parsed by the server's own option parser (accepted domain). python datetime trusted. " + SHIMS,
     design_ref="DESIGN.md section 4, C08"),
+ "C06": dict(
+    engine="enumeration + hypothesis",
+    technique="generated (stream, static template, mode, options); every enumerated segment/range fetched in order plus the one past the end, bodies read with an independent box reader and compared with an independent scan of the stored file (differential against ground truth)",
+    text="Search, not proof. Every (fixture stream, static template, mode) with three option sets is enumerated; 0.5k (quick) to 20k (thorough) further cases over fixture and synthetic streams (irregular durations, styp/sidx layouts, non-zero first decode time) and option vectors.",
+    note=SHIMS + ". Two open known findings (C06-K1 surplus $Number$ at the tail, C06-K2 moof-to-moof ranges pinned by a baseline test).",
+    design_ref="DESIGN.md section 4, C06"),
 }
 
 _PENDING = "check under construction in this build round; not yet registered (see DESIGN.md section 9)"
